@@ -14,11 +14,7 @@ from vlib import Infra
 def run(v, tier, seed, replay):
     exe = suvec.build_driver("plain")
     if replay:
-        with open(replay) as f:
-            rp = json.load(f)
-        segs = [x["replay"]["segment"] for x in rp["violations"] if x.get("replay") and "segment" in x["replay"]]
-        cmds = []
-        return "model_checking"
+        return suvec.replay(v, replay, "plain")
     ops = ("add", "neg", "icomm") if tier == "quick" else ("add", "sub", "neg", "icomm", "elementwise")
     maxops = 3 if tier == "quick" else 4
     # 1. the theft as it was coded before the repair: the specification itself exhibits the defect
